@@ -1,6 +1,12 @@
 (* Pinned statements of C03: re-checked on every run. *)
-From SF Require Import Base.Prelude Gen.Generated Unsized.Types Unsized.Parse Unsized.Machine Unsized.Ops Unsized.Proofs.EncodeParse Unsized.Proofs.Mem Unsized.Proofs.Notify Unsized.Proofs.Flat Properties.C03.
+From SF Require Import Base.Prelude Gen.Generated Unsized.Types Unsized.Parse Unsized.Machine Unsized.Ops Unsized.Proofs.EncodeParse Unsized.Proofs.Mem Unsized.Proofs.Notify Unsized.Proofs.Flat Unsized.Proofs.Layout Unsized.Proofs.Path Unsized.Proofs.Resize Unsized.Proofs.History Properties.C03.
 
+Check (C03_general_no_fault_in_any_history :
+  forall ovf t h v s top pi0 v' l,
+    RepF pi0 t v s top -> m_refuse s <> 1 -> orunE (m_cap s) (m_refuse s) t v h = Some (v', l) ->
+    exists s' top', mrunE ovf t s top h = Ok (s', top', l) /\ top_check s' top' = true /\ m_len s' <= m_cap s').
+Check (C03_general_pointer_assertions_hold :
+  forall pi t v s top, RepF pi t v s top -> top_check s top = true).
 Check (C03_notify_stays_in_allocation :
   forall t p src c m p' m', notify t p src c m = Ok (p', m') -> zlen m' = zlen m).
 Check (C03_add_bytes_stays_in_allocation :
@@ -22,6 +28,8 @@ Check (C03_check_pointers_in_range :
 Check (C03_swapped_accessor_detected :
   forall p lo hi cursor a, lo <= hi -> In a (addrs p) -> (a < lo \/ hi < a) -> fst (check_ptrs p lo hi cursor) = false).
 
+Print Assumptions C03_general_no_fault_in_any_history.
+Print Assumptions C03_general_pointer_assertions_hold.
 Print Assumptions C03_notify_stays_in_allocation.
 Print Assumptions C03_add_bytes_stays_in_allocation.
 Print Assumptions C03_remove_bytes_stays_in_allocation.
